@@ -17,7 +17,7 @@ struct LW {  // little-endian writer
     void u16(uint64_t v) { u8(v & 255); u8((v >> 8) & 255); }
     void u32(uint64_t v) { u16(v & 65535); u16((v >> 16) & 65535); }
     void u64(uint64_t v) { u32(v & 0xffffffffull); u32(v >> 32); }
-    void uN(int w, uint64_t v) { if (w == 1) u8(v); else if (w == 2) u16(v); else u32(v); }
+    void uN(int w, uint64_t v) { if (w == 0) return; if (w == 1) u8(v); else if (w == 2) u16(v); else u32(v); }
     void raw(const Bytes &x) { b.insert(b.end(), x.begin(), x.end()); }
     void str(const std::string &s) { b.insert(b.end(), s.begin(), s.end()); }
     void f64(double d) { uint64_t t; std::memcpy(&t, &d, 8); u64(t); }
@@ -54,11 +54,18 @@ struct EncOpt {
     int unknown_at = -1;              // insert one optional unknown chunk before chunk #unknown_at
     bool dirp_late = false;           // DIRP after the topology instead of first
     bool props_interleaved = false;   // PROP chunks of an entity kind directly after its topology chunk
+    // negative tests ("semantic mutants"): one field of the chunks of one kind is overridden with a literal byte and the payload is
+    // written CONSISTENTLY with it (elem size 0 for None / invalid encodings, truncated values for too narrow ones)
+    int bad_entity = 0;               // 1..3: TOPO chunks of that entity get the overrides below
+    int bad_henc = -1;                // literal handle_encoding byte
+    int bad_venc = -1;                // literal valence_encoding byte
+    int bad_vertenc = -1;             // literal vertex encoding byte of every VERT chunk
     std::string str() const {
         auto v = [](const std::vector<size_t> &c) { std::string s; for (size_t x : c) s += std::to_string(x) + "."; return s; };
         return "ve" + std::to_string(vert_enc) + " w" + std::to_string(wE) + std::to_string(wF) + std::to_string(wC) + " wv" + std::to_string(wVal) + " cutV" + v(cutV) + " cutE" + v(cutE) +
                " cutF" + v(cutF) + " cutC" + v(cutC) + " cutP" + v(cutP) + (min_offset ? " minoff" : "") + (force_variable ? " var" : "") + " unk" + std::to_string(unknown_at) +
-               (dirp_late ? " dirplate" : "") + (props_interleaved ? " inter" : "");
+               (dirp_late ? " dirplate" : "") + (props_interleaved ? " inter" : "") +
+               (bad_entity || bad_vertenc >= 0 ? " bad" + std::to_string(bad_entity) + ":" + std::to_string(bad_henc) + ":" + std::to_string(bad_venc) + ":" + std::to_string(bad_vertenc) : "");
     }
 };
 inline int min_width(uint64_t maxv) { return maxv <= 255 ? 1 : maxv <= 65535 ? 2 : 4; }
@@ -106,7 +113,11 @@ inline Bytes ref_encode(const MeshD &m, const EncOpt &o) {
             int hw = std::max(width, min_width(maxh - off));
             (void)nsub;
             int vw = std::max(o.wVal, min_width(maxval));
-            w.u8(entity); w.u8(fixed ? v0 : 0); w.u8(fixed ? 0 : vw); w.u8(hw);
+            auto esz = [](int b) { return b == 1 || b == 2 || b == 4 ? b : 0; };
+            int hbyte = hw, vbyte = fixed ? 0 : vw;
+            if (entity == o.bad_entity && o.bad_henc >= 0) { hbyte = o.bad_henc; hw = esz(hbyte); }
+            if (entity == o.bad_entity && o.bad_venc >= 0) { vbyte = o.bad_venc; vw = esz(vbyte); }
+            w.u8(entity); w.u8(fixed ? v0 : 0); w.u8(vbyte); w.u8(hbyte);
             w.u64(off);
             if (!fixed) for (size_t i = sp.first; i < sp.second; ++i) w.uN(vw, lists[i].size());
             for (size_t i = sp.first; i < sp.second; ++i) for (int h : lists[i]) w.uN(hw, (uint64_t)h - off);
@@ -129,8 +140,9 @@ inline Bytes ref_encode(const MeshD &m, const EncOpt &o) {
     if (!m.props.empty() && !o.dirp_late) chunks.push_back({"DIRP", dirp.b});
     for (auto sp : spans(m.pos.size(), o.cutV)) {
         LW w;
-        w.u64(sp.first); w.u32(sp.second - sp.first); w.u8(o.vert_enc); w.u8(0); w.u8(0); w.u8(0);
-        for (size_t i = sp.first; i < sp.second; ++i) for (int k = 0; k < 3; ++k) { if (o.vert_enc == 1) w.f32((float)m.pos[i][k]); else w.f64(m.pos[i][k]); }
+        int venc = o.bad_vertenc >= 0 ? o.bad_vertenc : o.vert_enc;
+        w.u64(sp.first); w.u32(sp.second - sp.first); w.u8(venc); w.u8(0); w.u8(0); w.u8(0);
+        for (size_t i = sp.first; i < sp.second; ++i) for (int k = 0; k < 3; ++k) { if (venc == 1) w.f32((float)m.pos[i][k]); else if (venc == 2) w.f64(m.pos[i][k]); }
         chunks.push_back({"VERT", w.b});
     }
     std::vector<std::vector<int>> el;
